@@ -65,3 +65,10 @@ VARIANTS = [
          old="        with self._thread_lock:\n            self._sync_with_backend()\n            return self._replay_result.get_trial(trial_id)\n",
          new="        with self._thread_lock:\n            self._sync_with_backend()\n            result = self._replay_result\n            return result.get_trial(trial_id)\n"),
 ]
+
+VARIANTS += [
+    dict(id="c03-drop-unique-attr", prop="C03", file=MODELS, expect="R03.6",
+         old="    __tablename__ = \"trial_user_attributes\"\n    __table_args__: Any = (UniqueConstraint(\"trial_id\", \"key\"),)\n", new="    __tablename__ = \"trial_user_attributes\"\n"),
+    dict(id="c03-study-name-not-unique", prop="C03", file=MODELS, expect="R03.6",
+         old="        String(MAX_INDEXED_STRING_LENGTH), index=True, unique=True, nullable=False", new="        String(MAX_INDEXED_STRING_LENGTH), index=True, nullable=False"),
+]
